@@ -86,8 +86,9 @@ def model_cfg(cfg):
     """the part of the configuration the Lean `Settings` reads"""
     comm = cfg.get("commodities")
     return {
-        "strict": bool(cfg.get("strict", False)),
-        "audit": bool(cfg.get("audit", False)),
+        # the mode switches may be given by the file (`strict`, `audit`) or by an overlap (`ov_strict`, `ov_audit`)
+        "strict": bool(cfg.get("ov_strict", cfg.get("strict", False))),
+        "audit": bool(cfg.get("ov_audit", cfg.get("audit", False))),
         # Config: commodities file absent => permit-empty = true; present => flag (default false)
         "permit_empty": True if comm is None else bool(cfg.get("permit_empty", False)),
         "accounts": cfg.get("accounts") or [],
